@@ -144,3 +144,6 @@ End Conc.
    _update_path_to_root starts at the parent *)
 Definition node_add_stale (d : dp) (n : lnode) : lnode :=
   match n with LNode l o p r ks => LNode l (o ++ [d]) (vmul p (dp_val d)) r ks end.
+
+Fixpoint nodupb (l : list nat) : bool :=
+  match l with [] => true | x :: r => negb (existsb (Nat.eqb x) r) && nodupb r end.
